@@ -3,8 +3,8 @@
    integer types, with the `as usize` cast of MAX as written in the code), the wrappers
    delegate, zero / one are the identities of plain, wrapping and saturating arithmetic, and the
    Trace / Record constants carry no derivative / no tape. *)
-From Coq Require Import List ZArith NArith Bool Lia.
-From EasyML Require Import Base.Sx Model.Num Model.Numeric.
+From Coq Require Import List ZArith NArith Bool Lia Ring_theory.
+From EasyML Require Import Base.Sx Model.Num Model.Tape Model.Numeric.
 Import ListNotations.
 Open Scope Z_scope.
 
@@ -218,3 +218,156 @@ Proof.
   repeat split. intros n. unfold record_from_usize. destruct (nof_N ops n); cbn; auto.
 Qed.
 End Wrappers.
+
+(* ---------- Trace / Record operators: the operand forms, constants, identities ---------- *)
+Section WrapperOps.
+Context {R : Type} (ops : numops R).
+
+(* all owned / borrowed operand forms of an operator run the `&x op &y` impl; both negation
+   forms coincide *)
+Theorem trace_forms_agree op a b :
+  trace_vv ops op a b = trace_rr ops op a b /\ trace_vr ops op a b = trace_rr ops op a b /\
+  trace_rv ops op a b = trace_rr ops op a b /\ trace_neg_v ops a = trace_neg_r ops a.
+Proof. repeat split. Qed.
+
+Theorem record_forms_agree op t a b :
+  record_vv ops op t a b = record_rr ops op t a b /\ record_vr ops op t a b = record_rr ops op t a b /\
+  record_rv ops op t a b = record_rr ops op t a b /\ record_neg_v ops t a = record_neg_r ops t a.
+Proof. repeat split. Qed.
+
+(* Record arithmetic on constants stays constant: the number is the operator applied to the
+   numbers, no tape is attached and the tape given as state is untouched *)
+Theorem record_constants_closed op t a b : rc_history a = None -> rc_history b = None ->
+  record_rr ops op t a b = Ok (mkRecord (fn_of ops op (rc_number a) (rc_number b)) None 0%nat, t) /\
+  record_neg_r ops t a = Ok (mkRecord (nneg ops (rc_number a)) None 0%nat, t) /\
+  record_neg_v ops t a = Ok (mkRecord (nneg ops (rc_number a)) None 0%nat, t).
+Proof.
+  intros Ha Hb. unfold record_rr, record_neg_r, record_neg_v, same_list. rewrite Ha, Hb.
+  repeat split.
+Qed.
+
+(* with an operand on a tape the result is on that tape, at the entry just appended; records of
+   two different tapes: the assertion fires *)
+Theorem record_tape_result op t a b r t' : record_rr ops op t a b = Ok (r, t') ->
+  (rc_history a <> None \/ rc_history b <> None) ->
+  rc_index r = length t /\ length t' = S (length t) /\
+  (rc_history r = rc_history a \/ rc_history r = rc_history b) /\ rc_history r <> None.
+Proof.
+  unfold record_rr. destruct (same_list a b); [|discriminate].
+  destruct (rc_history a) as [ha|] eqn:Ha, (rc_history b) as [hb|] eqn:Hb.
+  - cbn. intros [= <- <-] _. cbn. rewrite app_length. cbn. repeat split; auto; try lia. discriminate.
+  - unfold record_num. rewrite Ha. cbn. intros [= <- <-] _. cbn. rewrite app_length. cbn.
+    repeat split; auto; try lia. discriminate.
+  - destruct ((op =? 0) || (op =? 2)).
+    + unfold record_num. rewrite Hb. cbn. intros [= <- <-] _. cbn. rewrite app_length. cbn.
+      repeat split; auto; try lia. discriminate.
+    + unfold num_record. rewrite Hb. cbn. intros [= <- <-] _. cbn. rewrite app_length. cbn.
+      repeat split; auto; try lia. discriminate.
+  - intros _ [H|H]; congruence.
+Qed.
+
+Theorem record_cross_tape_panics op t a b x y : rc_history a = Some x -> rc_history b = Some y ->
+  x <> y -> record_rr ops op t a b = Panic.
+Proof.
+  intros Ha Hb Hne. unfold record_rr, same_list. rewrite Ha, Hb.
+  apply Nat.eqb_neq in Hne. rewrite Hne. reflexivity.
+Qed.
+
+(* ---- dual numbers over a commutative ring ---- *)
+Hypothesis Rth : ring_theory (nzero ops) (none_ ops) (nadd ops) (nmul ops) (nsub ops) (nneg ops) eq.
+Notation zero := (nzero ops). Notation one := (none_ ops).
+Notation "x [+] y" := (nadd ops x y) (at level 50, left associativity).
+Notation "x [*] y" := (nmul ops x y) (at level 40, left associativity).
+Notation "x [-] y" := (nsub ops x y) (at level 50, left associativity).
+
+Lemma r_add_0_r x : x [+] zero = x.
+Proof. rewrite (Radd_comm Rth). apply (Radd_0_l Rth). Qed.
+Lemma r_mul_1_r x : x [*] one = x.
+Proof. rewrite (Rmul_comm Rth). apply (Rmul_1_l Rth). Qed.
+Lemma r_opp_0 : nneg ops zero = zero.
+Proof. rewrite <- (Radd_0_l Rth (nneg ops zero)). apply (Ropp_def Rth). Qed.
+Lemma r_sub_0_r x : x [-] zero = x.
+Proof. rewrite (Rsub_def Rth), r_opp_0. apply r_add_0_r. Qed.
+Lemma r_sub_0_l x : zero [-] x = nneg ops x.
+Proof. rewrite (Rsub_def Rth). apply (Radd_0_l Rth). Qed.
+Lemma r_mul_0_l x : zero [*] x = zero.
+Proof.
+  (* 0*x = 0*x + (0*x + -(0*x)) = (0+0)*x + -(0*x) = 0*x + -(0*x) = 0 *)
+  assert (E : zero [*] x [+] zero [*] x = zero [*] x).
+  { rewrite <- (Rdistr_l Rth). rewrite (Radd_0_l Rth). reflexivity. }
+  rewrite <- (r_add_0_r (zero [*] x)) at 1.
+  rewrite <- (Ropp_def Rth (zero [*] x)) at 2.
+  rewrite (Radd_assoc Rth), E. apply (Ropp_def Rth).
+Qed.
+Lemma r_mul_0_r x : x [*] zero = zero.
+Proof. rewrite (Rmul_comm Rth). apply r_mul_0_l. Qed.
+
+(* Trace arithmetic on constants stays constant: derivative 0 (the quotient needs 0 / y = 0,
+   which the ring laws do not provide: stated as a hypothesis of that clause) *)
+Theorem trace_constants_closed a b :
+  trace_rr ops 0 (trace_constant ops a) (trace_constant ops b) = trace_constant ops (a [+] b) /\
+  trace_rr ops 1 (trace_constant ops a) (trace_constant ops b) = trace_constant ops (a [-] b) /\
+  trace_rr ops 2 (trace_constant ops a) (trace_constant ops b) = trace_constant ops (a [*] b) /\
+  ((forall y, ndiv ops zero y = zero) ->
+   trace_rr ops 3 (trace_constant ops a) (trace_constant ops b) = trace_constant ops (ndiv ops a b)) /\
+  trace_neg_r ops (trace_constant ops a) = trace_constant ops (nneg ops a) /\
+  trace_neg_v ops (trace_constant ops a) = trace_constant ops (nneg ops a).
+Proof.
+  unfold trace_neg_r, trace_neg_v, trace_vr, trace_vv, trace_zero, trace_rr, trace_constant.
+  cbn [tr_number tr_derivative].
+  rewrite !r_mul_0_l, !r_mul_0_r, !(Radd_0_l Rth), !r_sub_0_r, !r_sub_0_l.
+  repeat split. intros H0. rewrite H0. reflexivity.
+Qed.
+
+(* zero and one are the identities of Trace arithmetic AS DUAL NUMBERS (derivative component
+   included); x / 1 = x is again a hypothesis of the quotient clause *)
+Theorem trace_identities t :
+  trace_rr ops 0 (trace_zero ops) t = t /\ trace_rr ops 0 t (trace_zero ops) = t /\
+  trace_rr ops 2 (trace_one ops) t = t /\ trace_rr ops 2 t (trace_one ops) = t /\
+  trace_rr ops 1 t (trace_zero ops) = t /\
+  ((forall x, ndiv ops x one = x) -> trace_rr ops 3 t (trace_one ops) = t).
+Proof.
+  destruct t as [n d]. unfold trace_rr, trace_zero, trace_one, trace_constant.
+  cbn [tr_number tr_derivative].
+  rewrite !(Radd_0_l Rth), !r_add_0_r, !(Rmul_1_l Rth), !r_mul_1_r, !r_mul_0_l, !r_mul_0_r,
+          !r_sub_0_r, !(Radd_0_l Rth), !r_add_0_r.
+  repeat split. intros H1. rewrite !H1. reflexivity.
+Qed.
+
+(* negation of a dual number negates both components *)
+Theorem trace_neg_spec t :
+  trace_neg_r ops t = mkTrace (nneg ops (tr_number t)) (nneg ops (tr_derivative t)).
+Proof.
+  unfold trace_neg_r, trace_vr, trace_rr, trace_zero, trace_constant. cbn [tr_number tr_derivative].
+  rewrite !r_sub_0_l. reflexivity.
+Qed.
+
+(* zero and one as Records are identities of Record arithmetic on constants *)
+Theorem record_identities t x :
+  record_rr ops 0 t (record_zero ops) (record_constant x) = Ok (record_constant x, t) /\
+  record_rr ops 0 t (record_constant x) (record_zero ops) = Ok (record_constant x, t) /\
+  record_rr ops 2 t (record_one ops) (record_constant x) = Ok (record_constant x, t) /\
+  record_rr ops 2 t (record_constant x) (record_one ops) = Ok (record_constant x, t).
+Proof.
+  unfold record_rr, same_list, record_zero, record_one, record_constant. cbn [rc_history rc_number fn_of].
+  rewrite (Radd_0_l Rth), r_add_0_r, (Rmul_1_l Rth), r_mul_1_r. repeat split.
+Qed.
+End WrapperOps.
+
+(* the integers as a dictionary: the ring hypothesis and the two quotient hypotheses are
+   satisfiable (non-vacuity) *)
+Definition ZopsC19 : numops Z := {|
+  nzero := 0; none_ := 1;
+  nadd := Z.add; nsub := Z.sub; nmul := Z.mul; ndiv := Z.div; nneg := Z.opp;
+  neqb := Z.eqb; nltb := Z.ltb; nleb := Z.leb;
+  nsqrt := fun z => z; nexp := fun z => z; nln := fun z => z; nsin := fun z => z;
+  ncos := fun z => z; npow := fun x _ => x; npi := 3; nof_N := fun n => Some (Z.of_N n);
+  nenc := fun z => SZ z; ndec := dZ
+|}.
+Lemma ZopsC19_ring :
+  ring_theory (nzero ZopsC19) (none_ ZopsC19) (nadd ZopsC19) (nmul ZopsC19) (nsub ZopsC19)
+              (nneg ZopsC19) eq.
+Proof. exact Zth. Qed.
+Lemma ZopsC19_div : (forall y, ndiv ZopsC19 (nzero ZopsC19) y = nzero ZopsC19) /\
+                    (forall x, ndiv ZopsC19 x (none_ ZopsC19) = x).
+Proof. split; [intros y; exact (Zdiv_0_l y)|intros x; exact (Z.div_1_r x)]. Qed.
